@@ -399,6 +399,114 @@ func runConn(c *mon.Case, r *mon.Run, dir string, p params) {
 	wg.Wait()
 }
 
+// seedLate: the server's seed frame reaches the client only after Dial has
+// returned (the server->client direction is delivered in 64-byte reads, and
+// what is left of it after the handshake is held back), while the client's
+// application is already writing: the client's reader adopts the server's
+// seed concurrently with Write.  Client bursts that begin after the client
+// has delivered server payload (which follows the seed frame) are judged
+// against the server's table; nothing may panic on the way, and the race
+// detector watches the hand-over.
+func seedLate(c *mon.Case, r *mon.Run, dir string, p params, releaseAfter int) {
+	rng := mon.NewRand(p.seed)
+	flag.Set("obfs4-distBias", fmt.Sprint(p.biased))
+	b := o4.NewBridge(rng, p.iat)
+	vals, list := table(b.Seed, p.biased)
+	sf, err := o4.ServerFactory(dir, b)
+	if err != nil {
+		c.Violation("setup/server-factory", err.Error(), nil)
+		return
+	}
+	cw, sw := memwire.Pair(memwire.Options{})
+	c2s, s2c := cw.Out(), sw.Out()
+	s2c.SetPolicy(memwire.Fixed(64))
+	var sc net.Conn
+	var serr error
+	done := make(chan struct{})
+	c.Go(func() { close(done) }, func() { sc, serr = sf.WrapConn(sw) })
+	cc, cerr := o4.DialReal(cw, b.ClientArgsCert())
+	<-done
+	if cerr != nil || serr != nil {
+		c.Violation("setup/handshake", fmt.Sprintf("%v / %v", cerr, serr), p.String())
+		cw.Close()
+		sw.Close()
+		return
+	}
+	s2c.Pause(true)
+	held := s2c.Pending()
+	var wg sync.WaitGroup
+	var mu sync.Mutex
+	var payloadTick int64 = -1
+	wg.Add(2)
+	c.Go(wg.Done, func() {
+		buf := make([]byte, 4096)
+		for {
+			if _, err := sc.Read(buf); err != nil {
+				return
+			}
+		}
+	})
+	c.Go(wg.Done, func() {
+		buf := make([]byte, 4096)
+		for {
+			n, err := cc.Read(buf)
+			if n > 0 {
+				mu.Lock()
+				if payloadTick < 0 {
+					payloadTick = memwire.Tick()
+				}
+				mu.Unlock()
+			}
+			if err != nil {
+				return
+			}
+		}
+	})
+	// server payload behind the seed frame
+	if _, ok := writeBursts(c, p, "server", sc, s2c, []int{100}, mon.Stream{Key: p.seed ^ 1}); !ok {
+		cw.Close()
+		sw.Close()
+		wg.Wait()
+		return
+	}
+	nW := 24
+	st := mon.Stream{Key: p.seed ^ 2}
+	var off int64
+	var after []burst
+	for i := 0; i < nW; i++ {
+		if i == releaseAfter {
+			s2c.Pause(false) // the reader now works through the rest of the seed frame while we keep writing
+		}
+		sz := []int{1, 100, 1427, 1428, 3000, rng.IntN(3001)}[rng.IntN(6)]
+		start := memwire.Tick()
+		bs, ok := writeBursts(c, p, "client", cc, c2s, []int{sz}, mon.Stream{Key: st.Key + uint64(off)})
+		if !ok {
+			break
+		}
+		off += int64(sz)
+		mu.Lock()
+		pt := payloadTick
+		mu.Unlock()
+		if pt >= 0 && start > pt {
+			after = append(after, bs...)
+		}
+	}
+	synctest.Wait()
+	if len(after) > 0 {
+		judgeBursts(c, r, p, "client-after-late-seed", after, vals, list)
+		r.Count("client_bursts_after_late_seed", int64(len(after)))
+	}
+	r.Count("evaluations", 1)
+	r.Count("late_seed_connections", 1)
+	if held > 0 {
+		r.Count("late_seed_connections_with_seed_bytes_held_back", 1)
+	}
+	r.Distinct("nontrivial", fmt.Sprintf("seed-late/%s/%d", p, releaseAfter))
+	cw.Close()
+	sw.Close()
+	wg.Wait()
+}
+
 // refReceiver: the reference server receives from a real client and decodes
 // the frames: sizes must lie in [21,1448].
 func refReceiver(c *mon.Case, r *mon.Run, p params) {
@@ -528,7 +636,8 @@ func seedToServer(c *mon.Case, r *mon.Run, dir string, p params) {
 func TestCheck(t *testing.T) {
 	r := mon.Start(t, "C09")
 	defer r.Finish()
-	r.Note("rule", "(1) the real padBurst for (tail, target) pairs: thorough = all 1448 tails x 1449 targets plus tails beyond one segment, quick = all targets x 64 tails incl. edges; oracle = modular padding rule (ending on target, or on target+21 when the needed padding does not exceed a 21-byte header). (2) real client <-> real server per (IAT mode 0/1/2) x (biased/uniform) x seeds: PRNG seeds plus searched seeds whose table is single-valued ({0}, {10}, {210}, {1365}, {1448}), contains 0 ({356,0}, {108,0}) or has 100 values; application writes of sizes {0,1,2,100,1426..1428,2853..2855,4096,8192,23168,65536,PRNG<=3000}, every size 0..3000 once for one seed; each wire write attributed to its application Write; judged against the table the harness derives from the same seed with the real probdist; client bursts are judged against the server's table only after the client delivered server payload; a Write that exceeds a byte budget of 4 MiB + 64 x size is reported as not terminating. (3) a reference receiver decodes real client frames and checks their sizes. Non-trivial = a connection on which bursts were judged; distinct = parameter tuple.")
+	r.SpinWatch(memwire.BytesMoved)
+	r.Note("rule", "(1) the real padBurst for (tail, target) pairs: thorough = all 1448 tails x 1449 targets plus tails beyond one segment, quick = all targets x 64 tails incl. edges; oracle = modular padding rule (ending on target, or on target+21 when the needed padding does not exceed a 21-byte header). (2) real client <-> real server per (IAT mode 0/1/2) x (biased/uniform) x seeds: PRNG seeds plus searched seeds whose table is single-valued ({0}, {10}, {210}, {1365}, {1448}), contains 0 ({356,0}, {108,0}) or has 100 values; application writes of sizes {0,1,2,100,1426..1428,2853..2855,4096,8192,23168,65536,PRNG<=3000}, every size 0..3000 once for one seed; each wire write attributed to its application Write; judged against the table the harness derives from the same seed with the real probdist; client bursts are judged against the server's table only after the client delivered server payload; a Write that exceeds a byte budget of 4 MiB + 64 x size is reported as not terminating. (2b) late seed: the server->client direction is delivered in 64-byte reads and what is left after the handshake is held back, so the client adopts the server's seed while its application is already writing (released after 0, 1, 2 or 5 client writes); client bursts that begin after server payload was delivered are judged against the server's table. (3) a reference receiver decodes real client frames and checks their sizes. Non-trivial = a connection on which bursts were judged; distinct = parameter tuple.")
 	dir := o4.StateDir("c09")
 
 	// (1) arithmetic
@@ -577,6 +686,11 @@ func TestCheck(t *testing.T) {
 			r.Bubble(fmt.Sprintf("seed-to-server/iat%d/b%v", iat, biased), func(c *mon.Case) {
 				for k := 0; k < r.Pick(3, 30); k++ {
 					seedToServer(c, r, dir, params{iat: iat, biased: biased, seed: r.Sub("s2s", iat, biased, k)})
+				}
+			})
+			r.Bubble(fmt.Sprintf("seed-late/iat%d/b%v", iat, biased), func(c *mon.Case) {
+				for k := 0; k < r.Pick(8, 60); k++ {
+					seedLate(c, r, dir, params{iat: iat, biased: biased, seed: r.Sub("late", iat, biased, k)}, []int{0, 1, 2, 5}[k%4])
 				}
 			})
 			r.Bubble(fmt.Sprintf("ref/iat%d/b%v", iat, biased), func(c *mon.Case) {
